@@ -1,5 +1,5 @@
 (* C16 — the theorems (trace level), built on C16Proofs. *)
-From YV Require Import Common.Tac C16.C16Model C16.C16Proofs.
+From YV Require Import Common.Tac C16.C16Model C16.C16Proofs C16.C16Tac.
 
 Lemma counts_exec c (f : obs -> bool) (g : event -> bool) :
   (forall s e, inv s -> enabled c s e = true -> countb f (snd (step c s e)) = b2n (g e)) ->
@@ -17,7 +17,7 @@ Lemma step_counts_parts c s e : inv s -> enabled c s e = true ->
   countb is_handshake o = b2n (ev_disp_connected e) /\
   (forall p, In p [0; 1; 2]%N -> countb (is_authed_at p) o = b2n (ev_success e)) /\
   countb is_app_success o = b2n (ev_success e) /\
-  countb is_down_write o = 0%nat /\ countb is_raise o = 0%nat.
+  countb is_down_write o = 0%nat /\ countb is_raise o = b2n (ev_keys_error e).
 Proof.
   intros Hi He o. pose proof (step_counts c s e Hi He) as H. fold o in H.
   unfold step_counts_ok in H.
@@ -32,7 +32,7 @@ Proof.
 Qed.
 
 (* ---------- C16_connect_once / C16_authed_once / C16_no_write_when_down ---------- *)
-Theorem connect_once_thm : forall c h s tr, exec c init h = Some (s, tr) ->
+Theorem connect_once_thm : forall c h s tr, exec c (init c) h = Some (s, tr) ->
   orphans s = 0%N /\
   (forall p, In p [0; 1; 2; 3]%N -> countb (is_up_at p) tr = count_ev ev_disp_connected h) /\
   (forall p, In p [0; 1; 2]%N -> countb (is_auth_at p) tr = count_ev ev_disp_connected h) /\
@@ -40,48 +40,33 @@ Theorem connect_once_thm : forall c h s tr, exec c init h = Some (s, tr) ->
 Proof.
   intros c h s tr Hx. split; [apply (reach_inv c h s tr Hx)|].
   repeat split; intros;
-  (eapply counts_exec; [|apply inv_init|exact Hx]); intros s0 e0 Hi He;
+  (eapply counts_exec; [|apply (inv_init c)|exact Hx]); intros s0 e0 Hi He;
   pose proof (step_counts_parts c s0 e0 Hi He) as Hp; cbv zeta in Hp; intuition.
 Qed.
 
-Theorem authed_once_thm : forall c h s tr, exec c init h = Some (s, tr) ->
+Theorem authed_once_thm : forall c h s tr, exec c (init c) h = Some (s, tr) ->
   (forall p, In p [0; 1; 2]%N -> countb (is_authed_at p) tr = count_ev ev_success h) /\
   countb is_app_success tr = count_ev ev_success h.
 Proof.
   intros c h s tr Hx.
   repeat split; intros;
-  (eapply counts_exec; [|apply inv_init|exact Hx]); intros s0 e0 Hi He;
+  (eapply counts_exec; [|apply (inv_init c)|exact Hx]); intros s0 e0 Hi He;
   pose proof (step_counts_parts c s0 e0 Hi He) as Hp; cbv zeta in Hp; intuition.
 Qed.
 
 Lemma count_ev_false h : count_ev (fun _ => false) h = 0%nat.
 Proof. induction h; cbn; auto. Qed.
 
-Theorem no_write_when_down_thm : forall c h s tr, exec c init h = Some (s, tr) ->
-  countb is_down_write tr = 0%nat /\ countb is_raise tr = 0%nat.
+Theorem no_write_when_down_thm : forall c h s tr, exec c (init c) h = Some (s, tr) ->
+  countb is_down_write tr = 0%nat /\ countb is_raise tr = count_ev ev_keys_error h.
 Proof.
-  intros c h s tr Hx. split; rewrite <- (count_ev_false h);
-  (eapply counts_exec; [|apply inv_init|exact Hx]); intros s0 e0 Hi He;
-  pose proof (step_counts_parts c s0 e0 Hi He) as Hp; cbv zeta in Hp; cbn [b2n]; intuition.
+  intros c h s tr Hx. split.
+  - rewrite <- (count_ev_false h).
+    (eapply counts_exec; [|apply (inv_init c)|exact Hx]); intros s0 e0 Hi He;
+    pose proof (step_counts_parts c s0 e0 Hi He) as Hp; cbv zeta in Hp; cbn [b2n]; intuition.
+  - (eapply counts_exec; [|apply (inv_init c)|exact Hx]); intros s0 e0 Hi He;
+    pose proof (step_counts_parts c s0 e0 Hi He) as Hp; cbv zeta in Hp; intuition.
 Qed.
-
-(* ---------- enumeration for a fixed event ---------- *)
-Ltac enum_state_only c Hinv :=
-  let Hs := fresh "Hs" in let Ha := fresh "Ha" in let Ho := fresh "Ho" in
-  destruct Hinv as [Hs [Ha Ho]];
-  destruct c as [crec cpas cpng cfc cfd];
-  enum_state Hs Ha; cbn in Ho; subst.
-
-Ltac split_ifs_light :=
-  repeat match goal with
-         | |- context [if ?b then _ else _] =>
-           match b with
-           | context [if _ then _ else _] => fail 1
-           | _ => destruct b eqn:?
-           end; cbn [fst snd]
-         end.
-
-Ltac solve_in := cbn [In]; repeat first [left; reflexivity | right]; fail.
 
 (* ---------- C16_down_once ---------- *)
 Lemma mon_run_app m a b :
@@ -105,10 +90,10 @@ Lemma step_mon_proj c s e : inv s -> enabled c s e = true ->
 Proof.
   intros Hinv He. enum_step c s e Hinv He;
   compute_step; rewrite ?memN_nil, ?memN_single, ?N.eqb_refl; split_ifs_light; prune He;
-  repeat split; vm_compute; reflexivity.
+  try solve [repeat split; vm_compute; reflexivity]; close_hyps.
 Qed.
 
-Theorem down_once_thm : forall c h s tr, exec c init h = Some (s, tr) ->
+Theorem down_once_thm : forall c h s tr, exec c (init c) h = Some (s, tr) ->
   mon_run MIdle tr = Some (mon_of (ns s)) /\
   (forall p, In p [1; 2; 3]%N -> proj 0 tr = proj p tr ++ map ADown (dq s)).
 Proof.
@@ -131,12 +116,12 @@ Proof.
                       proj p (snd (step c s0 e)) ++ map ADown (dq (fst (step c s0 e)))).
         { cbn [In] in Hp. destruct Hp as [Hp|[Hp|[Hp|[]]]]; subst p; assumption. }
         rewrite Hpp, <- app_assoc, (IH2 p Hp), app_assoc. reflexivity. }
-  destruct (G h init s tr inv_init Hx) as [G1 G2]. split; [exact G1|].
+  destruct (G h (init c) s tr (inv_init c) Hx) as [G1 G2]. split; [exact G1|].
   intros p Hp. specialize (G2 p Hp). cbn [init dq map app] in G2. exact G2.
 Qed.
 
 (* ---------- C16_failure_closes / C16_stream_error_delivered_and_closes ---------- *)
-Theorem failure_closes_thm : forall c h s tr, exec c init h = Some (s, tr) ->
+Theorem failure_closes_thm : forall c h s tr, exec c (init c) h = Some (s, tr) ->
   enabled c s EFailure = true ->
   In (OApp AFailure) (snd (step c s EFailure)) /\
   In ODispDisconnect (snd (step c s EFailure)) /\
@@ -149,7 +134,7 @@ Proof.
   destruct cfd; compute_step; repeat split; try reflexivity; solve_in.
 Qed.
 
-Theorem stream_error_closes_thm : forall c h s tr k, exec c init h = Some (s, tr) ->
+Theorem stream_error_closes_thm : forall c h s tr k, exec c (init c) h = Some (s, tr) ->
   enabled c s (EStreamError k) = true ->
   In (OApp (AStreamError k)) (snd (step c s (EStreamError k))) /\
   In ODispDisconnect (snd (step c s (EStreamError k))) /\
@@ -165,171 +150,47 @@ Proof.
 Qed.
 
 (* ---------- C16_fresh_login ---------- *)
-Theorem fresh_login_thm : forall c h s tr, exec c init h = Some (s, tr) ->
-  (ns s = NsConnecting -> nz s = NzInit) /\
-  (ns s = NsDisconnected -> dq s = [] -> nz s = NzInit) /\
+Theorem fresh_login_thm : forall c h s tr, exec c (init c) h = Some (s, tr) ->
+  (ns s = NsConnecting -> nz s = NzInit /\ pth s = false /\ pq s = []) /\
+  (ns s = NsDisconnected -> dq s = [] -> nz s = NzInit /\ pth s = false /\ pq s = []) /\
   (enabled c s EDispConnected = true ->
-     In (OHandshake (c_passive c)) (snd (step c s EDispConnected)) /\
+     let s1 := fst (step c s EDispConnected) in
+     psv s1 = (psv s || (um s || ud s)) /\
+     In (OHandshake (psv s1)) (snd (step c s EDispConnected)) /\
+     In (OProbe 2 (PAuth (psv s1))) (snd (step c s EDispConnected)) /\
      In (OWrite WHeader true) (snd (step c s EDispConnected)) /\
-     nz (fst (step c s EDispConnected)) = NzHandshake).
+     nz s1 = NzHandshake).
 Proof.
   intros c h s tr Hx. pose proof (reach_inv c h s tr Hx) as Hinv.
-  enum_state_only c Hinv; (split; [|split]); intros; try discriminate; try reflexivity;
+  enum_state_only c Hinv; (split; [|split]); intros; try discriminate; try (repeat split; reflexivity);
   match goal with He : enabled _ _ _ = true |- _ => red_in He; try discriminate He end;
-  compute_step; repeat split; try reflexivity; solve_in.
+  cbv zeta; compute_step; repeat split; try reflexivity; solve_in.
 Qed.
 
 (* ---------- C16_auto_reconnect ---------- *)
-Theorem auto_reconnect_thm : forall c h s tr k, exec c init h = Some (s, tr) ->
+Theorem auto_reconnect_thm : forall c h s tr k, exec c (init c) h = Some (s, tr) ->
   stanza_ok s = true ->
   exists s2 tr2, exec c s [EStreamError k; ELoop] = Some (s2, tr2) /\
     existsb is_create tr2 = (c_reconnect c && negb (is_conflict k)) /\
     ns s2 = (if c_reconnect c && negb (is_conflict k) then NsConnecting else NsDisconnected).
 Proof.
   intros c h s tr k Hx He. pose proof (reach_inv c h s tr Hx) as Hinv.
-  enum_state_only c Hinv; red_in He; try discriminate He;
+  enum_full c Hinv; red_in He; try discriminate He;
   destruct crec, cfc, cfd, k; eexists; eexists; (split; [red_all; reflexivity|]); split; reflexivity.
 Qed.
 
-Theorem auto_reconnect_only_thm : forall c h s tr e, exec c init h = Some (s, tr) ->
+Theorem auto_reconnect_only_thm : forall c h s tr e, exec c (init c) h = Some (s, tr) ->
   enabled c s e = true ->
   (existsb is_create (snd (step c s e)) = true ->
-     e = EConnectReq \/ e = EConnectCall \/ (e = ELoop /\ recon s = true)) /\
+     e = EConnectReq \/ e = EConnectCall \/ (e = ELoop /\ (recon s = true \/ rb s = true))) /\
   (recon (fst (step c s e)) = true ->
-     recon s = true \/ (c_reconnect c = true /\ exists k, e = EStreamError k /\ k <> KConflict)).
+     recon s = true \/ (c_reconnect c = true /\ exists k, e = EStreamError k /\ k <> KConflict)) /\
+  (rb (fst (step c s e)) = true -> rb s = true \/ e = EKeysResult).
 Proof.
   intros c h s tr e Hx He. pose proof (reach_inv c h s tr Hx) as Hinv.
   enum_step c s e Hinv He; try destruct k; try destruct crec;
   compute_step; red_all; rewrite ?memN_nil, ?memN_single, ?N.eqb_refl; split_ifs; prune He;
-  (split; intros Hq; try discriminate Hq; auto 6);
-  right; (split; [reflexivity|]); eexists; (split; [reflexivity|discriminate]).
+  (split; [|split]); intros Hq; try discriminate Hq; auto 8;
+  try (right; (split; [reflexivity|]); eexists; (split; [reflexivity|discriminate])).
 Qed.
 
-(* ---------- C16_keepalive ---------- *)
-Lemma tick_facts c s : inv s -> enabled c s ETick = true ->
-  existsb is_ping_timeout (snd (step c s ETick)) = (pth s && nonempty (pq s)) /\
-  (pq (fst (step c s ETick)) = [] \/ pq (fst (step c s ETick)) = [nping s]).
-Proof.
-  intros Hinv He. enum_state_only c Hinv; red_in He; try discriminate He;
-  destruct cfd; red_in He; try discriminate He; compute_step; split; auto.
-Qed.
-
-Lemma nontick_pq c s e : inv s -> enabled c s e = true -> ev_tick e = false ->
-  pq (fst (step c s e)) = pq s \/ pq (fst (step c s e)) = [].
-Proof.
-  intros Hinv He Ht. enum_step c s e Hinv He; try discriminate Ht;
-  compute_step; red_all; rewrite ?memN_nil, ?memN_single; split_ifs; auto.
-Qed.
-
-Lemma pong_clears c s i : inv s -> enabled c s (EPong i) = true -> pq s = [i] ->
-  pq (fst (step c s (EPong i))) = [].
-Proof.
-  intros [_ [Ha _]] _ Hq. unfold aux_ok in Ha. rewrite Hq in Ha.
-  apply andb_prop in Ha. destruct Ha as [_ Ha].
-  apply andb_prop in Ha. destruct Ha as [_ Hm].
-  cbn [step]. unfold on_pong. cbn [set_nz reg pq pth nping]. rewrite Hm.
-  cbn [fst set_ping pq]. rewrite Hq, memN_single, N.eqb_refl. reflexivity.
-Qed.
-
-Theorem keepalive_thm : forall c h s tr, exec c init h = Some (s, tr) ->
-  (* at most one ping is outstanding, it is the last one issued, the thread is alive and the
-     ping is registered for its pong *)
-  (pq s = [] \/ exists x, pq s = [x] /\ (x + 1)%N = nping s /\ pth s = true /\ memN x (reg s) = true) /\
-  (* at a tick the layer asks for a disconnect iff a ping is outstanding *)
-  (enabled c s ETick = true ->
-     existsb is_ping_timeout (snd (step c s ETick)) = (pth s && nonempty (pq s))) /\
-  (* the pong of the outstanding ping clears it; no other event makes a ping outstanding *)
-  (forall i, enabled c s (EPong i) = true -> pq s = [i] -> pq (fst (step c s (EPong i))) = []) /\
-  (forall e, enabled c s e = true -> ev_tick e = false ->
-     pq (fst (step c s e)) = pq s \/ pq (fst (step c s e)) = []).
-Proof.
-  intros c h s tr Hx. pose proof (reach_inv c h s tr Hx) as Hinv.
-  split; [|split; [|split]].
-  - destruct Hinv as [_ [Ha _]]. unfold aux_ok in Ha.
-    destruct (pq s) as [|x [|y q]]; [left; reflexivity| |].
-    + right. exists x. use_bools. repeat split; auto.
-    + rewrite !andb_false_r in Ha. discriminate Ha.
-  - intros He. apply (tick_facts c s Hinv He).
-  - intros i He Hq. apply (pong_clears c s i Hinv He Hq).
-  - intros e He Ht. apply (nontick_pq c s e Hinv He Ht).
-Qed.
-
-(* no tick in mid: an empty queue stays empty; [n] stays [n] or is cleared, and survives only if
-   its pong was not in mid *)
-Lemma mid_pq c : forall mid s s1 tr, inv s -> exec c s mid = Some (s1, tr) ->
-  count_ev ev_tick mid = 0%nat ->
-  (pq s = [] -> pq s1 = []) /\
-  (forall n, pq s = [n] -> pq s1 = [] \/ (pq s1 = [n] /\ ~ In (EPong n) mid)).
-Proof.
-  induction mid as [|e mid IH]; intros s s1 tr Hi Hx Hc.
-  - cbn in Hx. apply Some_inj in Hx. apply pair_inj in Hx. destruct Hx; subst.
-    split; [auto|]. intros n Hn. right. split; [exact Hn|intros []].
-  - apply exec_cons in Hx. destruct Hx as [He [o2 [Hx _]]].
-    rewrite count_ev_cons in Hc.
-    assert (Ht : ev_tick e = false) by (destruct (ev_tick e); [discriminate Hc|reflexivity]).
-    rewrite Ht in Hc. cbn [b2n plus] in Hc.
-    pose proof (step_inv c s e Hi He) as Hi1.
-    destruct (IH _ _ _ Hi1 Hx Hc) as [IH0 IH1].
-    pose proof (nontick_pq c s e Hi He Ht) as Hq.
-    split.
-    + intros H0. apply IH0. destruct Hq as [Hq|Hq]; congruence.
-    + intros n Hn. destruct Hq as [Hq|Hq]; [|left; apply IH0, Hq].
-      assert (D : e = EPong n \/ e <> EPong n).
-      { destruct e; try (right; discriminate). destruct (N.eq_dec i n); [left; congruence|right; congruence]. }
-      destruct D as [D|D].
-      * subst e. left. apply IH0. apply (pong_clears c s n Hi He Hn).
-      * rewrite Hn in Hq. destruct (IH1 n Hq) as [H1|[H1 H2]]; [left; exact H1|].
-        right. split; [exact H1|]. intros [Hin|Hin]; [congruence|auto].
-Qed.
-
-Theorem keepalive_answered_never_thm : forall c h s tr mid s1 tr1,
-  exec c init h = Some (s, tr) ->
-  exec c s (ETick :: mid) = Some (s1, tr1) ->
-  count_ev ev_tick mid = 0%nat ->
-  In (EPong (nping s)) mid ->
-  enabled c s1 ETick = true ->
-  existsb is_ping_timeout (snd (step c s1 ETick)) = false.
-Proof.
-  intros c h s tr mid s1 tr1 Hx Hm Hc Hin He1.
-  pose proof (reach_inv c h s tr Hx) as Hi.
-  apply exec_cons in Hm. destruct Hm as [He [o2 [Hm _]]].
-  pose proof (step_inv c s ETick Hi He) as Hi'.
-  destruct (tick_facts c s Hi He) as [_ Hq].
-  destruct (mid_pq c mid _ _ _ Hi' Hm Hc) as [M0 M1].
-  assert (Hq1 : pq s1 = []).
-  { destruct Hq as [Hq|Hq]; [apply M0, Hq|].
-    destruct (M1 _ Hq) as [H1|[_ H2]]; [exact H1|contradiction]. }
-  pose proof (exec_inv c mid _ _ _ Hi' Hm) as Hi1.
-  destruct (tick_facts c s1 Hi1 He1) as [K _]. rewrite K, Hq1. cbn. apply andb_false_r.
-Qed.
-
-(* ---------- refuted: the unguarded code, and the early connect ---------- *)
-Definition cfg_asis : cfg := mkCfg true false true false false.
-Definition cfg_fixed : cfg := mkCfg true false true true true.
-
-Theorem double_connect_refuted :
-  let '(s, tr) := exec_any cfg_asis init [EConnectReq; EConnectReq] in
-  orphans s = 1%N /\ mon_run MIdle tr = None.
-Proof. vm_compute. split; reflexivity. Qed.
-
-Theorem down_disconnect_refuted :
-  let '(s, tr) := exec_any cfg_asis init
-                    [EConnectReq; EDispConnected; ESuccess; ETick; EPeerClose; ETick] in
-  mon_run MIdle tr = None /\ proj 0 tr = [AUp; ADown RNone; ADown RPing].
-Proof. vm_compute. split; reflexivity. Qed.
-
-Theorem early_connect_refuted :
-  let '(s, tr) := exec_any cfg_fixed init
-                    [EConnectReq; EDispConnected; EPeerClose; EConnectReq; EDispConnected; ELoop] in
-  ns s = NsConnected /\ nz s = NzInit /\ proj 3 tr = [AUp; AUp; ADown RNone] /\
-  exec cfg_fixed init [EConnectReq; EDispConnected; EPeerClose; EConnectReq] = None.
-Proof. vm_compute. repeat split; reflexivity. Qed.
-
-(* ---------- non-vacuity: a long history inside the domain ---------- *)
-Example nonvacuous :
-  exists s tr, exec cfg_fixed init
-    [EConnectReq; EDispConnected; ESuccess; ETick; EPong 0; ETick; EStreamError KAck; ELoop;
-     EDispConnected; ESuccess; ETick; ETick; ELoop; EConnectCall; EDispConnected; EFailure; ELoop]
-    = Some (s, tr) /\ countb (is_up_at 3) tr = 3%nat /\ ns s = NsDisconnected /\
-    countb is_ping_timeout tr = 4%nat.
-Proof. eexists. eexists. vm_compute. repeat split; reflexivity. Qed.
